@@ -41,9 +41,15 @@ Definition asOut_eqb (a b : asOut) : bool :=
 Definition period_eqb (a b : period) : bool :=
   (pd_nr a =? pd_nr b) && (pd_start a =? pd_start b) && list_eqb asOut_eqb (pd_as a) (pd_as b).
 
-(** status class: 200 = MPD produced, 400 = configuration refused, 500 = error returned, 0 = panic *)
+(** status class: 200 = MPD produced, 400 = refused (periods-per-hour outside 1..3600, or the typed
+    error errPeriodDuration: period not a multiple of the segment duration - commit e7eedfb),
+    500 = any other error, 0 = panic *)
 Definition statusOf {A} (r : res A) : Z :=
-  match r with Ok _ => 200 | Err e => if String.eqb e pphRangeMsg then 400 else 500 | Panic _ => 0 end.
+  match r with
+  | Ok _ => 200
+  | Err e => if String.eqb e pphRangeMsg || String.eqb e rejectMsg then 400 else 500
+  | Panic _ => 0
+  end.
 
 Definition case_ok (c : c06case) : bool :=
   match c with
